@@ -49,7 +49,7 @@ func runC17(c *Ctx) {
 		{"distance/protein", "", "aaFrequency", []int{0, 1}},
 		{"distance/protein", "", "selectedSites", []int{0, 1}},
 	})
-	L.Floor("input-unmodified", 8, "four functions, two inputs each")
+	L.Floor("input-unmodified", 4, "four functions, two inputs each (floor = half of the instances on the pinned tree: a clean-up may merge instances, a rule that sees nothing must still fail)")
 }
 
 // denseSet describes a call M.Set(i, j, v) on a gonum Dense.
@@ -186,7 +186,7 @@ func (c *Ctx) checkDenseSymmetry() {
 			L.Unknown("symmetric-sets", r.label, "Set calls on returned matrices", c.P.Pos(fn.Pos()), "none found")
 		}
 	}
-	L.Floor("symmetric-sets", 8, "MLDist 2, JC69Dist p 3 + dist 5")
+	L.Floor("symmetric-sets", 4, "MLDist 2, JC69Dist p 3 + dist 5 (floor = half of the instances on the pinned tree: a clean-up may merge instances, a rule that sees nothing must still fail)")
 }
 
 func (c *Ctx) checkDistRange() {
@@ -297,7 +297,7 @@ func (c *Ctx) checkDistRange() {
 			L.Check(lf.capped, "distance-range", r.label, name, pos, "reaches dist.Set only on the false branch of `value >= PROT_DIST_MAX`", "a computed distance can be stored without passing the PROT_DIST_MAX cap")
 		}
 	}
-	L.Floor("distance-range", 4, "0, cap, -1 marker, optimiser result")
+	L.Floor("distance-range", 2, "0, cap, -1 marker, optimiser result (floor = half of the instances on the pinned tree: a clean-up may merge instances, a rule that sees nothing must still fail)")
 	_ = nLeaves
 }
 
@@ -439,7 +439,7 @@ func (c *Ctx) checkBrentPairsRegisters(r *fnRef) {
 				"a bracketing point and its function value are no longer updated together: "+why+" — the parabolic step then interpolates through a point that was never evaluated")
 		}
 	}
-	L.Floor("paired-update", 3, "three point/value pairs carried around the loop")
+	L.Floor("paired-update", 1, "three point/value pairs carried around the loop (floor = half of the instances on the pinned tree: a clean-up may merge instances, a rule that sees nothing must still fail)")
 }
 
 // mentionsThroughCalls: v is computed from target through arithmetic, conversions and call arguments.
@@ -617,7 +617,7 @@ func (c *Ctx) checkBrentPairs() {
 			L.Bad("paired-update", r.label, name, pos, "a bracketing point and its function value are no longer updated together: "+strings.Join(bad, "; ")+" — the parabolic step then interpolates through a point that was never evaluated")
 		}
 	}
-	L.Floor("paired-update", 4, "shift semantics + three updating blocks")
+	L.Floor("paired-update", 2, "shift semantics + three updating blocks (floor = half of the instances on the pinned tree: a clean-up may merge instances, a rule that sees nothing must still fail)")
 }
 
 // ---------------------------------------------------------------------------
